@@ -1,6 +1,10 @@
 mod c30;
+mod c31;
 mod util;
 use vkit::{Check, Level};
 fn main() {
-    vkit::main(&[Check { id: "C30", level: Level::Exploration, run: c30::run }]);
+    vkit::main(&[
+        Check { id: "C30", level: Level::Exploration, run: c30::run },
+        Check { id: "C31", level: Level::ModelChecking, run: c31::run },
+    ]);
 }
